@@ -295,6 +295,13 @@ STATE_FUNCTIONS = [
     ("automation/async_facade.py", "GeckoAsyncFacade._on_config_device_change"),
     ("async_tasks.py", "AsyncTasks.add_task"),
     ("async_tasks.py", "AsyncTasks.cancel_key_tasks"),
+    # the request bookkeeping every handler inherits: its clock and its retry budget
+    ("driver/udp_protocol_handler.py", "GeckoUdpProtocolHandler.age"),
+    ("driver/udp_protocol_handler.py", "GeckoUdpProtocolHandler.has_timedout"),
+    ("driver/udp_protocol_handler.py", "GeckoUdpProtocolHandler._reset_timeout"),
+    ("driver/udp_protocol_handler.py", "GeckoUdpProtocolHandler.handled"),
+    ("driver/udp_protocol_handler.py", "GeckoUdpProtocolHandler.retry"),
+    ("driver/udp_protocol_handler.py", "GeckoUdpProtocolHandler.loop"),
     # the threaded engine: everything that touches the two handler lists or the counters
     ("driver/udp_socket.py", "GeckoUdpSocket.add_receive_handler"),
     ("driver/udp_socket.py", "GeckoUdpSocket.remove_receive_handler"),
